@@ -33,12 +33,12 @@ type jtChain struct {
 type jtClass int
 
 const (
-	jtUnknown jtClass = iota
-	jtValue           // a complete JSON value
-	jtFragment        // a JSON fragment that starts with ',' (or is empty) and leaves the lexer outside a string
-	jtText            // raw text over an alphabet without '"', '\\' and control characters
-	jtList            // comma-joined values
-	jtNested          // text assembled by another checked chain (a nested builder)
+	jtUnknown  jtClass = iota
+	jtValue            // a complete JSON value
+	jtFragment         // a JSON fragment that starts with ',' (or is empty) and leaves the lexer outside a string
+	jtText             // raw text over an alphabet without '"', '\\' and control characters
+	jtList             // comma-joined values
+	jtNested           // text assembled by another checked chain (a nested builder)
 )
 
 func (c jtClass) String() string {
@@ -362,9 +362,9 @@ func (l *jtLex) feed(s string) {
 
 // reviewed producers, by resolved callee (package path + name, or receiver type + method)
 var jtValueFuncs = map[string]bool{
-	modPath + "/internal/server.jsonString":       true,
-	modPath + "/internal/server.jsonTimeFormat":   true,
-	modPath + "/internal/server.ConvertToJSON":    true,
+	modPath + "/internal/server.jsonString":     true,
+	modPath + "/internal/server.jsonTimeFormat": true,
+	modPath + "/internal/server.ConvertToJSON":  true,
 	"strconv.Itoa": true, "strconv.FormatInt": true, "strconv.FormatUint": true, "strconv.FormatBool": true, "strconv.Quote": true,
 	"strconv.FormatFloat": true,
 }
